@@ -1,5 +1,6 @@
 SPECIFICATION Spec
 CONSTANTS
+  MaxTries = 3
   Tombstones = "handled"
   Admission = TRUE
   Clusters = {"a", "b"}
